@@ -179,6 +179,13 @@ func (s *symb) summary(c *ssa.Function, args []*Sym, idx int) *Sym {
 			if a == nil || bb == nil {
 				return nil
 			}
+			// a side that panics returns no value: the call's value is that of the other side
+			if a.Op == "panic" {
+				return bb
+			}
+			if bb.Op == "panic" {
+				return a
+			}
 			return simplifyIte(&Sym{Op: "ite", Args: []*Sym{sub.expr(t.Cond), a, bb}})
 		case *ssa.Jump:
 			return walk(b.Succs[0], b)
